@@ -5,7 +5,7 @@ build output are removed immediately. usage: run.py [ids...] [--jobs N] [--suite
 import sys, os, subprocess, json, shutil, time, concurrent.futures as cf
 sys.path.insert(0, os.path.dirname(__file__))
 from mutants import M
-ROOT='/verif'
+ROOT=os.environ.get('VERIF_EVAL_ROOT','/verif')
 ENV=dict(os.environ, GOFLAGS='-mod=mod', GOPROXY='off', GOSUMDB='off', GOTOOLCHAIN='local')
 def edits_of(m):
     if isinstance(m[2], list): ed=list(m[2]); note=m[3]
